@@ -766,6 +766,13 @@ func (w *World) fieldMutations(within map[*ssa.Function]bool) map[string][]field
 						if _, fresh := fa.X.(*ssa.Alloc); fresh {
 							continue // initialisation of an object allocated in this function
 						}
+						if ia, isRow := fa.X.(*ssa.IndexAddr); isRow {
+							if al, fresh := ia.X.(*ssa.Alloc); fresh {
+								if _, isArr := localArrayLen(al); isArr {
+									continue // … of a row of an array allocated in this function (`rows := [...]T{{…}, {…}}`)
+								}
+							}
+						}
 						if w.callLocalPtr(fa.X) {
 							continue // an object living in a local variable of a caller, handed down by address
 						}
@@ -1317,8 +1324,16 @@ func (w *World) freshBytes(v ssa.Value, fn *ssa.Function, depth int) (bool, stri
 	case *ssa.Alloc:
 		return true, "an array allocated in this call"
 	case *ssa.Phi:
+		// a loop-carried slice (`data = append(data, chunk...)` in the chunk loop): the φ is
+		// reached again through its own back edge; it is allocated in this call iff every
+		// value entering the cycle from outside is (append hands on its base or a new array)
+		if freshPhiBusy[x] {
+			return true, "loop-carried"
+		}
+		freshPhiBusy[x] = true
+		defer delete(freshPhiBusy, x)
 		for _, e := range x.Edges {
-			if ok, f := w.freshBytes(e, fn, depth+1); !ok {
+			if ok, f := w.freshBytes(e, fn, 1); !ok {
 				return false, f
 			}
 		}
@@ -1357,6 +1372,9 @@ func (w *World) freshBytes(v ssa.Value, fn *ssa.Function, depth int) (bool, stri
 	}
 	return false, "returned slice is " + v.String() + ": not provably allocated in this call"
 }
+
+// freshPhiBusy: the φ-nodes under examination by freshBytes (cycle cut-off).
+var freshPhiBusy = map[*ssa.Phi]bool{}
 
 // ruleFreshOutput.
 func (w *World) ruleFreshOutput(r *Report, rule string) {
